@@ -10,7 +10,7 @@ HERE = os.path.dirname(os.path.dirname(os.path.abspath(__file__)))
 
 
 def run_suite(ctx, which):
-  """which: "blocks" or "mkd".  Only the monitor's verdicts are used; the
+  """which: "blocks", "mkd", "poly", "stream" or "filt".  Only the monitor's verdicts are used; the
   suite's own pass/fail results are ignored."""
   repo = os.path.realpath(os.environ.get("VERIF_REPO", "/repo"))
   fd, out = tempfile.mkstemp(prefix="verif-passive-", suffix=".json")
@@ -30,7 +30,7 @@ def run_suite(ctx, which):
   except Exception as exc:  # noqa - the extra workload is optional
     ctx.count("passive:suite-run-failed")
     ctx.notes.append({"passive": repr(exc)[:300]})
-    return
+    return False
   finally:
     try:
       os.unlink(out)
@@ -43,3 +43,4 @@ def run_suite(ctx, which):
   for v in st["violations"]:
     ctx.violation("passive/%s-monitor-under-test-suite" % which,
                   ("passive", which), **v)
+  return True
